@@ -354,19 +354,36 @@ class Ctx:
 # known findings
 
 
+def _read_json_retry(path, tries=5):
+    """fragments may be rewritten by a concurrent development session: retry a torn read"""
+    for k in range(tries):
+        try:
+            with open(path) as f:
+                return json.load(f)
+        except json.JSONDecodeError:
+            if k == tries - 1:
+                raise
+            time.sleep(0.2)
+    return None
+
+
 def load_findings():
-    """known_findings.json plus (while checks are being built) known_findings.d/*.json"""
-    out = []
-    p = os.path.join(ROOT, "known_findings.json")
-    if os.path.exists(p):
-        with open(p) as f:
-            out.extend(json.load(f)["findings"])
+    """The list of recorded findings: known_findings.d/Cxx.json (one fragment per property, the working copies)
+    and known_findings.json (the committed union, written by tools_findings_merge.py); duplicates by id are
+    dropped, the fragment wins."""
+    out, seen = [], set()
+    paths = []
     d = os.path.join(ROOT, "known_findings.d")
     if os.path.isdir(d):
-        for name in sorted(os.listdir(d)):
-            if name.endswith(".json"):
-                with open(os.path.join(d, name)) as f:
-                    out.extend(json.load(f)["findings"])
+        paths += [os.path.join(d, name) for name in sorted(os.listdir(d)) if name.endswith(".json")]
+    paths.append(os.path.join(ROOT, "known_findings.json"))
+    for p in paths:
+        if not os.path.exists(p):
+            continue
+        for f in _read_json_retry(p)["findings"]:
+            if f["id"] not in seen:
+                seen.add(f["id"])
+                out.append(f)
     return out
 
 
